@@ -303,6 +303,40 @@ def load_table():
         return json.load(f)
 
 
+ALL_FILES = ("parsing/lexer.rs", "parsing/parser.rs", "parsing/compiler.rs", "parsing/instructions.rs", "parsing/ast.rs", "template.rs", "tera.rs", "delimiters.rs",
+             "vm/interpreter.rs", "vm/state.rs", "vm/for_loop.rs", "vm/stack.rs", "value/mod.rs", "value/number.rs", "value/key.rs", "value/ser.rs", "value/de.rs",
+             "value/utils.rs", "errors.rs", "reporting.rs", "utils.rs", "filters.rs", "tests.rs", "functions.rs", "args.rs", "context.rs", "components.rs", "globbing.rs", "lib.rs")
+_MOVE_CACHE = {}
+
+
+def kd_of(key):
+    return key.split("|", 1)[1]
+
+
+def move_budget(crate, cfg, table):
+    """per (kind, detail): how many reviewed sites of that description are no longer where the table has them in this configuration
+    (the function lost them or no longer exists) — these can pay for the same description showing up in another function (a site that a
+    refactoring moved); and how many sites exceed their row over the whole crate"""
+    ck = (id(crate), cfg)
+    if ck in _MOVE_CACHE:
+        return _MOVE_CACHE[ck]
+    allc = Counter(s["key"] for s in enumerate_sites(crate, ALL_FILES))
+    deficit, excess = Counter(), Counter()
+    for key, row in table.items():
+        if "configs" in row and cfg not in row["configs"]:
+            continue
+        d = row["count"] - allc.get(key, 0)
+        if d > 0:
+            deficit[kd_of(key)] += d
+    for key, n in allc.items():
+        row = table.get(key)
+        e = n - (row["count"] if row else 0)
+        if e > 0:
+            excess[kd_of(key)] += e
+    _MOVE_CACHE[ck] = (deficit, excess)
+    return deficit, excess
+
+
 def check(crate, rep, rule, files, cfg, floor):
     table = load_table()
     sites = enumerate_sites(crate, files)
@@ -310,12 +344,20 @@ def check(crate, rep, rule, files, cfg, floor):
     first = {}
     for s in sites:
         first.setdefault(s["key"], s)
+    deficit, excess = move_budget(crate, cfg, table)
     n_ok = 0
     for key, n in sorted(cnt.items()):
         row = table.get(key)
         s = first[key]
         k = "%s:%s" % (rule, key)
-        if row is None:
+        have = row["count"] if row else 0
+        if n > have and excess[kd_of(key)] <= deficit[kd_of(key)]:
+            # every extra site of this description over the crate is matched by a reviewed site of the same description that is gone from
+            # its old function: a move (helper extracted / inlined), not a new site
+            n_ok += 1
+            rep.ok(rule, k, s["where"], "reviewed site(s) of this description moved here from another function (%d extra over the crate, %d reviewed ones gone elsewhere)"
+                   % (excess[kd_of(key)], deficit[kd_of(key)]))
+        elif row is None:
             rep.bad(rule, k, s["where"], "panic-capable site is not in the reviewed table (new %s site `%s`): every place where the 'never panics' clause can fail "
                     "must be reviewed — add a row with its reason after review" % (s["kind"], key.split("|", 2)[2]))
         elif n > row["count"]:
